@@ -65,10 +65,12 @@ PassMP(r, o)       == o.filterMP => r.mp = "unique"
 (* mate selection: a mate flagged as the other one is never counted; an unflagged (single-end) record
    under --r1only/--r2only is not decided by the statement (MateUndecided) *)
 (* r.mate: 0 = neither mate flag (single-end), 1 = read 1, 2 = read 2, 3 = both flags (legal SAM: inner segment).
-   Selecting a mate excludes the OTHER mate: a single-end record passes; a record carrying both flags is undecided *)
+   --r1only ("Only count R1"): a single-end record IS read 1 in this toolkit (Fragment puts it in the R1 slot) and must pass.
+   --r2only ("Only count R2"): a single-end record is undecided (dropping it also satisfies "only count R2").
+   A record carrying both flags is undecided under either option *)
 IsRead1(r) == r.mate \in {1, 3}
 IsRead2(r) == r.mate \in {2, 3}
-PassMateStrict(r, o)  == (o.r1only => r.mate \in {0, 1}) /\ (o.r2only => r.mate \in {0, 2})
+PassMateStrict(r, o)  == (o.r1only => r.mate \in {0, 1}) /\ (o.r2only => r.mate = 2)
 PassMateLenient(r, o) == (o.r1only => r.mate # 2) /\ (o.r2only => r.mate # 1)
 
 (* blacklist, BED intervals half open [start,end): a read none of whose bases lies in an interval must pass;
